@@ -296,6 +296,11 @@ def write_evidence(prop, tier, seed, agg, samples, wall, violations, known_hits,
             'voids_per_suit': sorted(c['voids']),
             'hand_sizes_parsed': sorted(c['hand_sizes']),
         }
+    if prop in ('C08', 'C11', 'C12') and agg['cov'].get('contracts'):
+        cells = agg['cov']['contracts']
+        cov['scoring_cells_logged'] = {
+            'contract_x_doubling_x_vulnerable_x_made_or_down': f'{len(cells)}/420',
+            'contracts_x_doubling': f'{len({c.split("/")[0] for c in cells})}/105'}
     if agg['exhaustive_parts']:
         cov['enumerated_parts'] = agg['exhaustive_parts'][:20]
         cov['enumerated_parts_count'] = len(agg['exhaustive_parts'])
